@@ -419,6 +419,12 @@ class BaseDriverLibrary(BaseAlgorithmLibrary):
                     result = self._get_early_stopping_result(
                         problem, termination_criterion
                     )
+            except BaseException:
+                # Do not leave the listeners of this driver on the database:
+                # they would count the iterations of a later execution too.
+                self._clear_listeners(problem)
+                self._problem = None
+                raise
 
         self.__progress_bar.finalize_iter_observer()
         self._clear_listeners(problem)
